@@ -1517,7 +1517,15 @@ def generate(ctx):
     sites, params, mutators = cache_attrs.write()
     ctx.extra["trace_sites"] = len(sites)
     ctx.extra["trace_sites_cached"] = sum(1 for s in sites if s[3] in ("perObjectJit", "storedBranch", "staticJit"))
-    return [("Scico.Generated.CacheAttrs", "attributes read at trace time: no functional/loss parameter, no attribute with a setter; inventory as audited")]
+    import cache_translate
+
+    shared, options, chains = cache_translate.write()
+    ctx.extra["shared_state_inventory"] = [list(x) for x in shared]
+    ctx.extra["option_patterns_from_source"] = {c + "." + a: p for c, a, p, _ in options}
+    return [("Scico.Generated.CacheAttrs", "attributes read at trace time: no functional/loss parameter, no attribute with a setter; inventory as audited"),
+            ("Scico.Generated.CacheTables", "shared defaults / class-level / module-level mutable state of the whole package = audited list; option "
+             "dictionaries (pattern, literal defaults) = model table; second-level attribute chains in cached traces = audited list; "
+             "normalised source of the 14 functions the model follows = pinned source")]
 
 
 def _trace_cases():
